@@ -51,7 +51,11 @@ ASSUMPTIONS = [
     "the lumped form is Gram diagonal + lambda",
     "the proportionality clause is skipped (and counted as class 'degenerate') when the reference solution is zero or "
     "constant up to rounding (then the library normalises rounding noise)",
-    "reuse_old_values is only used for the R cache (N<200); the b-vector reuse path is property C17",
+    "reuse_old_values is only used for the R cache (post_processing is never called, so no old b-vector exists); the "
+    "b-vector reuse path is property C17; the R cache is not combined with numeric entries (a cached inexact value of a "
+    "congruent pair would blur the cause predicate of F-C16-numeric)",
+    "dimension-wise analytic matrix entries are compared with 1e-9*max|G| (the library's antiderivatives lose digits "
+    "like 1e-16/h^2), uniform ones with 1e-12*max|G|",
 ]
 
 LAMBDAS = [0.0, 1e-3, 0.1]
@@ -189,12 +193,13 @@ def _maxabs(a):
     return float(np.max(np.abs(a))) if a.size else 0.0
 
 
-def check_matrix(out, sub, R, G, lam, tag, numeric=False, info=None):
-    """R (dense) must equal G + lam I; symmetric; positive definite.  tol 1e-12 * max|G| (rounding seen: 3e-16)."""
+def check_matrix(out, sub, R, G, lam, tag, info=None, tol=1e-12, clause="gram"):
+    """R (dense) must equal G + lam I; symmetric; positive definite.  tol 1e-12 * max|G| (rounding seen: 3e-16);
+    numeric entries: 1e-9 * max|G|."""
     R = np.asarray(R, dtype=float)
     want = G + lam * np.eye(len(G))
     if R.shape != want.shape:
-        out.bad(sub + "/gram/shape", "%s shape %s expected %s" % (tag, R.shape, want.shape))
+        out.bad(sub + "/" + clause + "/shape", "%s shape %s expected %s" % (tag, R.shape, want.shape))
         return False
     scale = _maxabs(G)
     dev = _maxabs(R - want)
@@ -204,28 +209,28 @@ def check_matrix(out, sub, R, G, lam, tag, numeric=False, info=None):
     if not np.array_equal(R, R.T):
         a = _maxabs(R - R.T)
         if a > 1e-13 * scale:
-            out.bad(sub + "/gram/not-symmetric", "%s max|R-R^T|=%g" % (tag, a))
+            out.bad(sub + "/" + clause + "/not-symmetric", "%s max|R-R^T|=%g" % (tag, a))
             ok = False
-    if dev > 1e-12 * scale:
+    if dev > tol * scale:
         D = np.abs(R - want)
         i, j = np.unravel_index(np.argmax(D), D.shape)
         offd = np.abs(R - want - np.diag(np.diag(R - want)))
-        if _maxabs(np.diag(R - want)) > 1e-12 * scale and _maxabs(offd) <= 1e-12 * scale:
+        if _maxabs(np.diag(R - want)) > tol * scale and _maxabs(offd) <= tol * scale:
             cause = "diagonal"
-        elif _maxabs(np.diag(R - want)) <= 1e-12 * scale:
+        elif _maxabs(np.diag(R - want)) <= tol * scale:
             cause = "off-diagonal"
         else:
             cause = "diagonal-and-off-diagonal"
-        out.bad(sub + "/gram/" + cause, "%s max|R-(G+lam I)|=%g at (%d,%d): got %r want %r (lam=%g)"
+        out.bad(sub + "/" + clause + "/" + cause, "%s max|R-(G+lam I)|=%g at (%d,%d): got %r want %r (lam=%g)"
                 % (tag, dev, i, j, R[i, j], want[i, j], lam))
         ok = False
     try:
         ev = np.linalg.eigvalsh(0.5 * (R + R.T))
         if ev[0] <= 0.0:
-            out.bad(sub + "/gram/not-positive-definite", "%s smallest eigenvalue %g" % (tag, ev[0]))
+            out.bad(sub + "/" + clause + "/not-positive-definite", "%s smallest eigenvalue %g" % (tag, ev[0]))
             ok = False
     except np.linalg.LinAlgError as e:  # pragma: no cover
-        out.bad(sub + "/gram/not-positive-definite", "%s eigvalsh failed: %s" % (tag, e))
+        out.bad(sub + "/" + clause + "/not-positive-definite", "%s eigvalsh failed: %s" % (tag, e))
         ok = False
     return ok
 
@@ -445,7 +450,7 @@ def uniform_strategy(tier):
             case.update(lmin=lmin, lmax=lmax)
             per_dim = [lmax] * d
         else:
-            big = draw(st.integers(0, 4)) == 0      # aim at the N >= 200 path
+            big = draw(st.sampled_from([False] * 4 + [True]))      # aim at the N >= 200 path
             while True:
                 if d == 1:
                     lv = [draw(st.integers(1, 8 if big else 6))]
@@ -467,6 +472,581 @@ def uniform_strategy(tier):
             case["labels"] = [draw(st.sampled_from([-1, 1])) for _ in case["data"]]
         else:
             case["labels"] = None
+        return case
+    return s()
+
+
+
+# ----------------------------------------------------------------------------------------------------------------
+# low-tolerance quadrature of the *reference* integrand -- only used to explain a deviation of the numeric matrix
+# entries (known finding F-C16-numeric: epsrel is 1 ** (-15) == 1), never to accept a wrong integrand or range
+# ----------------------------------------------------------------------------------------------------------------
+def _hat_domains(stripe, boundary):
+    """[(centre, lo, hi)] of the basis functions of one dimension"""
+    n = len(stripe)
+    idx = range(n) if boundary else range(1, n - 1)
+    return [(stripe[i], stripe[i - 1] if i > 0 else stripe[i], stripe[i + 1] if i < n - 1 else stripe[i]) for i in idx]
+
+
+def loose_quad_gram(stripes, boundary, diagonal_only=False):
+    """scipy.integrate.nquad of the product of two reference hats over the union of their supports with
+    epsabs=1e-15, epsrel=1 (the tolerance the library requests), for every adjacent pair."""
+    from scipy.integrate import nquad
+    hd = [_hat_domains(s, boundary) for s in stripes]
+    hats = list(itertools.product(*hd))
+    n = len(hats)
+    M = np.zeros((n, n))
+    for i in range(n):
+        for j in range(i, n):
+            if diagonal_only and i != j:
+                continue
+            hi_, hj = hats[i], hats[j]
+            if not all(hi_[k][1] <= hj[k][0] <= hi_[k][2] for k in range(len(stripes))):
+                continue
+
+            def f(*x, hi_=hi_, hj=hj):
+                v = 1.0
+                for k in range(len(x)):
+                    v *= ref_hat1d(hi_[k][0], hi_[k][1], hi_[k][2], x[k]) * ref_hat1d(hj[k][0], hj[k][1], hj[k][2], x[k])
+                return v
+            rng = [[min(hi_[k][1], hj[k][1]), max(hi_[k][2], hj[k][2])] for k in range(len(stripes))]
+            M[i, j] = M[j, i] = nquad(f, rng, opts={"epsabs": 1e-15, "epsrel": 1.0})[0]
+    return M
+
+
+# ----------------------------------------------------------------------------------------------------------------
+# sub-check: non-uniform (dimension-wise) component grids, library functions called directly
+# ----------------------------------------------------------------------------------------------------------------
+class _Container(object):
+    """stand-in for the refinement container that initialize_evaluation_dimension_wise/… write `.value` to"""
+    def __init__(self):
+        self.value = np.zeros(1)
+
+
+KNOWN_UPPER = "upper-boundary-hat-ignores-samples-at-1"
+
+
+def _drop_upper(data):
+    """samples with a coordinate exactly 1.0 (their whole contribution vanishes when the upper boundary hat is 0 at 1)"""
+    return np.array([any(c == 1.0 for c in p) for p in data.tolist()], dtype=bool)
+
+
+def check_dimwise_grid(out, sub, op, stripes, levels, boundary, lam, lump, numeric, data, classes, info, tag,
+                       R=None, B=None, alphas=None):
+    """all clauses for one non-uniform grid; R/B may be None (only surpluses observed)"""
+    G = ref_gram(stripes, boundary)
+    w = ref_weights(stripes, boundary)
+    bref = ref_b(stripes, boundary, data, classes)
+    N = len(G)
+    info["max_N"] = max(info.get("max_N", 0), N)
+    G_used = G
+    if R is not None:
+        R = np.asarray(R, dtype=float)
+        if lump:
+            want = np.diag(G) + lam
+            if R.shape != want.shape:
+                out.bad(sub + "/lumped/shape", "%s lumped R has shape %s expected %s" % (tag, R.shape, want.shape))
+            else:
+                dev = _maxabs(R - want)
+                if dev > 1e-12 * _maxabs(G):
+                    if numeric and _maxabs(R - (np.diag(loose_quad_gram(stripes, boundary, True)) + lam)) \
+                            <= 1e-10 * _maxabs(G):
+                        out.bad(sub + "/gram-numeric/entry-is-quadrature-at-epsrel-1",
+                                "%s lumped numeric diagonal deviates from the Gram diagonal by %g (rel %g)"
+                                % (tag, dev, dev / _maxabs(G)))
+                        G_used = np.diag(R - lam)
+                    else:
+                        i = int(np.argmax(np.abs(R - want)))
+                        out.bad(sub + "/lumped/value", "%s lumped R[%d]=%r, Gram diagonal + lambda = %r"
+                                % (tag, i, R[i], want[i]))
+                if np.any(R <= 0):
+                    out.bad(sub + "/lumped/not-positive", "%s min %g" % (tag, np.min(R)))
+        elif numeric:
+            want = G + lam * np.eye(N)
+            dev = _maxabs(R - want) if R.shape == want.shape else float("inf")
+            info["max_numeric_dev_rel"] = max(info.get("max_numeric_dev_rel", 0.0), dev / _maxabs(G))
+            if dev > 1e-9 * _maxabs(G) and R.shape == want.shape and \
+                    _maxabs(R - loose_quad_gram(stripes, boundary) - lam * np.eye(N)) <= 1e-10 * _maxabs(G):
+                D = np.abs(R - want)
+                i, j = np.unravel_index(np.argmax(D), D.shape)
+                out.bad(sub + "/gram-numeric/entry-is-quadrature-at-epsrel-1",
+                        "%s numeric R[%d,%d]=%r but Gram entry %r (max dev %g, rel. to max|G| %g): equals adaptive "
+                        "quadrature of the right integrand stopped at relative tolerance 1" % (tag, i, j, R[i, j], want[i, j],
+                                                                                     dev, dev / _maxabs(G)))
+                if np.array_equal(R, R.T) and np.linalg.eigvalsh(R)[0] > 0:
+                    G_used = R - lam * np.eye(N)
+                else:
+                    out.bad(sub + "/gram-numeric/not-spd", "%s numeric matrix not symmetric positive definite" % tag)
+            else:
+                check_matrix(out, sub, R, G, lam, tag, tol=1e-9, clause="gram-numeric")
+        else:
+            # the library's analytic antiderivatives contain terms of size x^3/h^2, so the rounding error of an entry
+            # grows like 1e-16/h^2 (seen 1.5e-13 for h = 2^-6); 1e-9 * max|G| is >= 100x above that for h >= 2^-8
+            check_matrix(out, sub, R, G, lam, tag, info=info, tol=1e-9)
+    upper = _drop_upper(data) if boundary else np.zeros(len(data), dtype=bool)
+    b_used = bref
+    if B is not None:
+        B = np.asarray(B, dtype=float)
+        if B.shape == bref.shape and _maxabs(B - bref) > 1e-12 and upper.any():
+            A = ref_hatmatrix(stripes, boundary, data)
+            if classes is not None:
+                A = A * np.asarray(classes)[:, None]
+            bdrop = (A * (~upper)[:, None]).sum(axis=0) / len(data)
+            if _maxabs(B - bdrop) <= 1e-12:
+                out.bad(sub + "/rhs/" + KNOWN_UPPER, "%s %d sample(s) with a coordinate == 1.0 contribute nothing: "
+                        "max|b-b_ref|=%g" % (tag, int(upper.sum()), _maxabs(B - bref)))
+                b_used = bdrop
+            else:
+                check_b(out, sub, B, bref, tag, info=info)
+        else:
+            check_b(out, sub, B, bref, tag, info=info)
+    if alphas is not None:
+        if B is None and upper.any():
+            # only the surpluses are observed: decide between the reference and the "samples at 1 dropped" variant
+            A = ref_hatmatrix(stripes, boundary, data)
+            if classes is not None:
+                A = A * np.asarray(classes)[:, None]
+            bdrop = (A * (~upper)[:, None]).sum(axis=0) / len(data)
+            o1, o2 = Outcome(), Outcome()
+            check_surpluses(o1, sub, alphas, G_used, lam, bref, w, classes is not None, lump, tag)
+            if o1.violations and _maxabs(bdrop - bref) > 1e-12:
+                check_surpluses(o2, sub, alphas, G_used, lam, bdrop, w, classes is not None, lump, tag)
+                if not o2.violations:
+                    out.bad(sub + "/surplus/" + KNOWN_UPPER, "%s surpluses solve the system whose right-hand side lacks "
+                            "the %d sample(s) with a coordinate == 1.0" % (tag, int(upper.sum())))
+                    return N
+        check_surpluses(out, sub, alphas, G_used, lam, b_used, w, classes is not None, lump, tag, info=info)
+    return N
+
+
+def run_dimwise(case):
+    from sparseSpACE.GridOperation import DensityEstimation
+    from sparseSpACE.Grid import GlobalTrapezoidalGrid
+    from sparseSpACE.ComponentGridInfo import ComponentGridInfo
+    out = Outcome()
+    sub = "dimwise"
+    d, lam, lump, boundary = case["d"], case["lam"], case["lump"], case["boundary"]
+    numeric, reuse = case["numeric"], case["reuse"]
+    data, classes = make_data(case)
+    info = {}
+    a, b = np.zeros(d), np.ones(d)
+    grid = GlobalTrapezoidalGrid(a=a, b=b, modified_basis=False, boundary=boundary)
+    grid2 = GlobalTrapezoidalGrid(a=a, b=b, modified_basis=False, boundary=boundary)
+    op = DensityEstimation(data.copy(), d, grid=grid, masslumping=lump, lambd=lam,
+                           classes=None if classes is None else classes.copy(), reuse_old_values=reuse,
+                           numeric_calculation=numeric, print_level=Q, log_level=Q)
+    built = [[tree_stripe(t["splits"], t["lmin"]) for t in trees] for trees in case["grids"]]
+    lmaxv = max(max(max(l) for _, l in g) for g in built)
+    cont = _Container()
+    with silent():
+        op.init_dimension_wise(grid, grid2, cont, [1] * d, [max(lmaxv, 2)] * d, a, b)
+        op.initialize_evaluation_dimension_wise(cont)
+    if not np.array_equal(np.asarray(op.data), data):
+        out.bad(sub + "/data-rescaled", "initialize() changed data lying in [0,1]^d")
+    nline = 0
+    nonuniform = False
+    for gi, g in enumerate(built):
+        stripes = [list(s) for s, _ in g]
+        levels = [list(l) for _, l in g]
+        lv = tuple(max(l) for l in levels)
+        tag = "grid %d stripes=%s lam=%g lump=%s numeric=%s boundary=%s" % (gi, stripes, lam, lump, numeric, boundary)
+        cg = ComponentGridInfo(lv, 1)
+        R = B = al = None
+        try:
+            with silent():
+                grid.set_grid(stripes, levels)
+                R = op.build_R_matrix_dimension_wise(stripes, levels)
+                B = op.calculate_B_dimension_wise(op.data, stripes, levels)
+                op.calculate_operation_dimension_wise(stripes, levels, cg)
+            al = op.surpluses.get(lv)
+        except ZeroDivisionError as e:
+            import traceback
+            fr = traceback.extract_tb(e.__traceback__)[-1]
+            if boundary and _drop_upper(data).any() and fr.name == "hat_function_non_symmetric":
+                out.bad(sub + "/rhs/exception-" + KNOWN_UPPER, "%s ZeroDivisionError in hat_function_non_symmetric for a "
+                        "sample with a coordinate == 1.0 (N>=200 path)" % tag)
+            else:
+                raise
+        if al is None and R is not None and B is not None:
+            out.bad(sub + "/surplus/missing-grid", "%s no surpluses stored" % tag)
+        N = check_dimwise_grid(out, sub, op, stripes, levels, boundary, lam, lump, numeric, data, classes, info, tag,
+                               R=R, B=B, alphas=al)
+        nline += on_grid_line(stripes, data)
+        if any(len(set(np.diff(s).tolist())) > 1 for s in stripes):
+            nonuniform = True
+        out.cls("N>=200" if N >= 200 else "N<200")
+    out.nontrivial = nonuniform and nline >= 1
+    out.cls("d=%d" % d, "lump" if lump else "full", "lam=%g" % lam, "labels" if classes is not None else "no-labels",
+            "boundary" if boundary else "no-boundary", "numeric" if numeric else "analytic",
+            "R-cache" if reuse else "no-cache", "grids=%d" % len(built))
+    if nonuniform:
+        out.cls("non-uniform")
+    if nline:
+        out.cls("sample-on-grid-line")
+    if any(0.0 in p or 1.0 in p for p in data.tolist()):
+        out.cls("sample-on-domain-boundary")
+    info["max_samples"] = len(data)
+    out.info = info
+    return out
+
+
+def dimwise_strategy(tier):
+    @st.composite
+    def s(draw):
+        d = draw(st.integers(1, 3))
+        numeric = draw(st.sampled_from([False] * (11 if tier == "quick" else 5) + [True]))
+        boundary = draw(st.sampled_from([False] * 5 + [True]))
+        big = (not numeric) and draw(st.sampled_from([False] * 6 + [True]))       # aim at the N >= 200 path
+        if numeric:
+            d = min(d, 2)
+        ngrids = 1 if numeric else draw(st.sampled_from([1, 1, 2]))
+        maxN = 9 if numeric else (420 if big else 150)
+        grids = []
+        for _ in range(ngrids):
+            while True:
+                trees = []
+                for k in range(d):
+                    lmin = draw(st.integers(1, 3 if big else 2))
+                    ns = draw(st.integers(0, 2 if numeric else (12 if big else 6)))
+                    trees.append(dict(lmin=lmin, splits=[draw(st.integers(0, 63)) for _ in range(ns)]))
+                sizes = [len(tree_stripe(t["splits"], t["lmin"])[0]) - (0 if boundary else 2) for t in trees]
+                if int(np.prod(sizes)) <= maxN:
+                    break
+                # too large: shorten the longest tree deterministically
+                k = int(np.argmax(sizes))
+                trees[k] = dict(lmin=1, splits=trees[k]["splits"][:2])
+                sizes = [len(tree_stripe(t["splits"], t["lmin"])[0]) - (0 if boundary else 2) for t in trees]
+                if int(np.prod(sizes)) <= maxN:
+                    break
+                trees = [dict(lmin=1, splits=t["splits"][:1]) for t in trees]
+                break
+            grids.append(trees)
+        stripes0 = [tree_stripe(t["splits"], t["lmin"])[0] for t in grids[0]]
+        case = dict(d=d, boundary=boundary, numeric=numeric,
+                    reuse=False if numeric else draw(st.sampled_from([False, False, True])),
+                    lam=draw(st.sampled_from(LAMBDAS)), lump=draw(st.sampled_from([False, False, True])),
+                    grids=grids, rng=draw(st.integers(0, 2 ** 31 - 1)))
+        case["data"] = draw(data_strategy(stripes0, 12 if tier == "quick" else 30))
+        case["bulk"] = draw(st.sampled_from([0, 0, 0, 10, 40]))
+        case["snap_res"] = [4] * d
+        case["labels"] = [draw(st.sampled_from([-1, 1])) for _ in case["data"]] if draw(st.booleans()) else None
+        return case
+    return s()
+
+
+# ----------------------------------------------------------------------------------------------------------------
+# sub-check: a real SpatiallyAdaptiveSingleDimensions2 run, every component-grid solve is compared with the oracle
+# ----------------------------------------------------------------------------------------------------------------
+def run_sasd(case):
+    from sparseSpACE.GridOperation import DensityEstimation
+    from sparseSpACE.Grid import GlobalTrapezoidalGrid
+    from sparseSpACE.spatiallyAdaptiveSingleDimension2 import SpatiallyAdaptiveSingleDimensions2
+    from sparseSpACE.ErrorCalculator import ErrorCalculator
+
+    class Scripted(ErrorCalculator):
+        def __init__(self, vals):
+            super().__init__(log_level=Q, print_level=Q)
+            self.vals, self.i = vals, 0
+
+        def calc_error(self, obj, norm, volume_weights=None):
+            v = self.vals[self.i % len(self.vals)]
+            self.i += 1
+            return v
+
+    out = Outcome()
+    sub = "sasd"
+    d, lam, lump, boundary = case["d"], case["lam"], case["lump"], case["boundary"]
+    data, classes = make_data(case)
+    info = {}
+    a, b = np.zeros(d), np.ones(d)
+    grid = GlobalTrapezoidalGrid(a=a, b=b, modified_basis=False, boundary=boundary)
+    op = DensityEstimation(data.copy(), d, grid=grid, masslumping=lump, lambd=lam,
+                           classes=None if classes is None else classes.copy(), reuse_old_values=False,
+                           print_level=Q, log_level=Q)
+    sa = SpatiallyAdaptiveSingleDimensions2(a, b, operation=op, margin=case["margin"], rebalancing=case["rebalancing"],
+                                            print_level=Q, log_level=Q)
+    calls = []
+    orig = op.calculate_operation_dimension_wise
+
+    def observer(stripes, levels, cg):
+        r = orig(stripes, levels, cg)
+        lv = tuple(int(x) for x in cg.levelvector)
+        calls.append(([[float(x) for x in s] for s in stripes], [[int(x) for x in l] for l in levels], lv,
+                      np.array(op.surpluses[lv], dtype=float).copy()))
+        return r
+    op.calculate_operation_dimension_wise = observer
+    try:
+        with silent():
+            sa.performSpatiallyAdaptiv(case["lmin"], case["lmax"], Scripted(case["errors"]), -1.0,
+                                       max_evaluations=case["max_evaluations"], print_output=False)
+    except ZeroDivisionError as e:
+        import traceback
+        fr = traceback.extract_tb(e.__traceback__)[-1]
+        if boundary and _drop_upper(data).any() and fr.name == "hat_function_non_symmetric":
+            out.bad(sub + "/rhs/exception-" + KNOWN_UPPER, "ZeroDivisionError in hat_function_non_symmetric for a sample "
+                    "with a coordinate == 1.0 (N>=200 path)")
+        else:
+            raise
+    nline = 0
+    nonuniform = 0
+    for k, (stripes, levels, lv, al) in enumerate(calls):
+        tag = "call %d levelvec=%s stripes=%s" % (k, lv, stripes)
+        for s in stripes:
+            if s[0] != 0.0 or s[-1] != 1.0 or any(s[i] >= s[i + 1] for i in range(len(s) - 1)):
+                raise AssertionError("harness: unexpected stripe %s" % s)
+        check_dimwise_grid(out, sub, op, stripes, levels, boundary, lam, lump, False, data, classes, info, tag,
+                           alphas=al)
+        nl = on_grid_line(stripes, data)
+        nu = any(len(set(np.diff(s).tolist())) > 1 for s in stripes)
+        nline += 1 if (nl and nu) else 0
+        nonuniform += 1 if nu else 0
+    out.nontrivial = nline >= 1
+    out.cls("d=%d" % d, "lump" if lump else "full", "lam=%g" % lam, "labels" if classes is not None else "no-labels",
+            "boundary" if boundary else "no-boundary", "rebalancing" if case["rebalancing"] else "no-rebalancing")
+    if nonuniform:
+        out.cls("non-uniform-grid-solved")
+    info["max_solves"] = len(calls)
+    info["max_nonuniform_solves"] = nonuniform
+    info["max_samples"] = len(data)
+    out.info = info
+    return out
+
+
+def sasd_strategy(tier):
+    @st.composite
+    def s(draw):
+        d = draw(st.integers(1, 2 if tier == "quick" else 3))
+        lmin = draw(st.integers(1, 2))
+        lmax = lmin + draw(st.integers(1, 2))
+        case = dict(d=d, lmin=lmin, lmax=lmax, boundary=draw(st.sampled_from([False] * 5 + [True])),
+                    lam=draw(st.sampled_from(LAMBDAS)), lump=draw(st.sampled_from([False, False, True])),
+                    margin=draw(st.sampled_from([0.5, 0.9])), rebalancing=draw(st.booleans()),
+                    max_evaluations=draw(st.integers(5, 60 if tier == "quick" else 120)),
+                    errors=[draw(st.sampled_from([0.0, 0.0, 0.5, 0.95, 1.0])) for _ in range(draw(st.integers(1, 12)))],
+                    rng=draw(st.integers(0, 2 ** 31 - 1)))
+        case["data"] = draw(data_strategy([lmax + 1] * d, 10 if tier == "quick" else 25))
+        case["bulk"] = draw(st.sampled_from([0, 0, 10, 30]))
+        case["snap_res"] = [lmax + 1] * d
+        case["labels"] = [draw(st.sampled_from([-1, 1])) for _ in case["data"]] if draw(st.booleans()) else None
+        return case
+    return s()
+
+
+# ----------------------------------------------------------------------------------------------------------------
+# sub-check: the seven hat evaluations
+# ----------------------------------------------------------------------------------------------------------------
+HAT_TOL = 1e-13   # values in [0,1]; rounding seen <= 3e-16
+
+
+def _hat_cause(stripes, boundary, hats, pts, bad):
+    """coarse cause of the deviating (point, hat) pairs: where does the point lie relative to the hat"""
+    order = ["peak-of-upper-boundary-hat", "peak-of-lower-boundary-hat", "peak", "support-end", "interior"]
+    cats = set()
+    for j, i in bad[:50]:
+        c, lo, hi = hats[i]
+        x = pts[j]
+        found = {"interior"}
+        for k in range(len(x)):
+            if x[k] == c[k]:
+                found.add("peak-of-upper-boundary-hat" if (boundary and c[k] == hi[k]) else (
+                    "peak-of-lower-boundary-hat" if (boundary and c[k] == lo[k]) else "peak"))
+            elif x[k] == lo[k] or x[k] == hi[k]:
+                found.add("support-end")
+        cats.add(min(found, key=order.index))
+    return sorted(cats)[0] if len(cats) == 1 else "+".join(sorted(cats))
+
+
+def run_hats(case):
+    from sparseSpACE.GridOperation import DensityEstimation
+    from sparseSpACE.Grid import GlobalTrapezoidalGrid
+    from vlib.core import guarded
+    out = Outcome()
+    sub = "hats"
+    d, boundary = case["d"], case["boundary"]
+    if case["kind"] == "uniform":
+        stripes = uniform_stripes(case["levels"])
+    else:
+        stripes = [tree_stripe(t["splits"], t["lmin"])[0] for t in case["trees"]]
+    pts = np.array(case["points"], dtype=float)
+    M = len(pts)
+    A = ref_hatmatrix(stripes, boundary, pts)                                  # M x K reference values
+    hd = [_hat_domains(s, boundary) for s in stripes]
+    hats = [(tuple(h[0] for h in combo), tuple(h[1] for h in combo), tuple(h[2] for h in combo))
+            for combo in itertools.product(*hd)]                              # (centre, lower, upper) per hat
+    K = len(hats)
+    centres = np.array([h[0] for h in hats])
+    lower = np.array([h[1] for h in hats])
+    upper = np.array([h[2] for h in hats])
+    insup = np.all((pts[:, None, :] >= lower[None]) & (pts[:, None, :] <= upper[None]), axis=2)    # M x K
+    a, b = np.zeros(d), np.ones(d)
+    info = {}
+    results = {}
+
+    def compare(name, V, mask=None):
+        V = np.asarray(V, dtype=float)
+        if V.shape != A.shape:
+            out.bad("%s/%s/shape" % (sub, name), "shape %s expected %s" % (V.shape, A.shape))
+            return
+        results[name] = (V, mask)
+        D = np.abs(V - A)
+        if mask is not None:
+            D = np.where(mask, D, 0.0)
+        D = np.where(np.isnan(D), np.inf, D)
+        info["max_hat_dev"] = max(info.get("max_hat_dev", 0.0), float(np.max(D)) if np.isfinite(np.max(D)) else 1.0)
+        bad = list(zip(*np.nonzero(D > HAT_TOL)))
+        if bad:
+            j, i = bad[0]
+            out.bad("%s/%s/%s" % (sub, name, _hat_cause(stripes, boundary, hats, pts, bad)),
+                    "hat centre=%s support=[%s,%s] at x=%s: got %r want %r (%d deviating pairs; stripes=%s)"
+                    % (hats[i][0], hats[i][1], hats[i][2], pts[j].tolist(), V[j, i], A[j, i], len(bad), stripes))
+
+    # ---- non-symmetric family (any stripes) ----
+    grid = GlobalTrapezoidalGrid(a=a, b=b, modified_basis=False, boundary=boundary)
+    op = DensityEstimation(pts.copy(), d, grid=grid, print_level=Q, log_level=Q)
+    domains = [[(float(lower[i][k]), float(upper[i][k])) for k in range(d)] for i in range(K)]
+    cpy = [tuple(float(x) for x in centres[i]) for i in range(K)]
+    ppy = [[float(x) for x in p] for p in pts]
+
+    def scalar_ns_safe():
+        # the scalar version divides by (upper - centre): for an upper-boundary half hat that is 0 at x == 1
+        V = np.full((M, K), np.nan)
+        zde = []
+        for j in range(M):
+            for i in range(K):
+                try:
+                    V[j, i] = op.hat_function_non_symmetric(cpy[i], domains[i], ppy[j])
+                except ZeroDivisionError:
+                    zde.append((j, i))
+        return V, zde
+
+    V, zde = scalar_ns_safe()
+    if zde:
+        out.bad("%s/non_symmetric/ZeroDivisionError-%s" % (sub, _hat_cause(stripes, boundary, hats, pts, zde)),
+                "hat centre=%s support=[%s,%s] at x=%s" % (hats[zde[0][1]][0], hats[zde[0][1]][1], hats[zde[0][1]][2],
+                                                          pts[zde[0][0]].tolist()))
+        msk = np.ones((M, K), dtype=bool)
+        for j, i in zde:
+            msk[j, i] = False
+        compare("non_symmetric", np.where(msk, V, 0.0), msk)
+    else:
+        compare("non_symmetric", V)
+    V = guarded(sub, out, op.hat_function_non_symmetric_completely_vectorized, centres, lower, upper, pts)
+    if V is not None:
+        compare("non_symmetric_completely_vectorized", V)
+    # vectorised over hats, one point, hats restricted to those whose closed support contains the point
+    if not boundary:
+        Vv = np.zeros((M, K))
+        ok = True
+        for j in range(M):
+            sel = np.nonzero(insup[j])[0]
+            if len(sel) == 0:
+                continue
+            dom = np.array([[[lower[i][k], upper[i][k]] for k in range(d)] for i in sel])
+            r = guarded(sub, out, op.hat_function_non_symmetric_vectorized, centres[sel], dom, pts[j])
+            if r is None:
+                ok = False
+                break
+            Vv[j, sel] = r
+        if ok:
+            compare("non_symmetric_vectorized", Vv, insup)
+    # the library's own derivation of (points, lower, upper) from the stripes must be the neighbour construction
+    with silent():
+        grid.set_grid(stripes, [[0] * len(s) for s in stripes])
+    P, L, U = op.get_hat_domain_for_every_grid_point_vectorized([np.array(s) for s in stripes])
+    if not (np.array_equal(np.asarray(P, dtype=float), centres) and np.array_equal(np.asarray(L, dtype=float), lower)
+            and np.array_equal(np.asarray(U, dtype=float), upper)):
+        out.bad(sub + "/hat-domains/neighbour-construction", "get_hat_domain_for_every_grid_point_vectorized differs "
+                "from (point, left neighbour, right neighbour) for stripes %s" % stripes)
+    # ---- symmetric family (uniform level vector) ----
+    if case["kind"] == "uniform":
+        lv = np.array(case["levels"], dtype=int)
+        opu = DensityEstimation(pts.copy(), d, print_level=Q, log_level=Q)
+        opu.grid.setCurrentArea(a, b, tuple(case["levels"]))
+        ivecs = np.array(list(itertools.product(*[range(1, 2 ** l) for l in case["levels"]])), dtype=int)
+        if len(ivecs) != K:
+            raise AssertionError("harness: index list / hat list mismatch")
+        V = np.zeros((M, K))
+        for j in range(M):
+            for i in range(K):
+                V[j, i] = opu.hat_function(tuple(int(x) for x in ivecs[i]), tuple(case["levels"]), pts[j])
+        compare("hat_function", V)
+        V = guarded(sub, out, opu.hat_function_in_support_completely_vectorized, ivecs, lv, pts)
+        if V is not None:
+            compare("in_support_completely_vectorized", V)
+        Vs = np.zeros((M, K))
+        Vv = np.zeros((M, K))
+        ok = True
+        for j in range(M):
+            sel = np.nonzero(insup[j])[0]
+            if len(sel) == 0:
+                continue
+            r = guarded(sub, out, opu.hat_function_in_support_vectorized, ivecs[sel], lv, pts[j])
+            if r is None:
+                ok = False
+                break
+            Vv[j, sel] = r
+            for i in sel:
+                r1 = guarded(sub, out, opu.hat_function_in_support, ivecs[i], lv, pts[j])
+                if r1 is None:
+                    ok = False
+                    break
+                Vs[j, i] = r1
+            if not ok:
+                break
+        if ok:
+            compare("in_support", Vs, insup)
+            compare("in_support_vectorized", Vv, insup)
+    # ---- pairwise agreement (on the common domain of validity) ----
+    names = sorted(results)
+    for x in range(len(names)):
+        for y in range(x + 1, len(names)):
+            V1, m1 = results[names[x]]
+            V2, m2 = results[names[y]]
+            msk = np.ones((M, K), dtype=bool)
+            for m in (m1, m2):
+                if m is not None:
+                    msk &= m
+            D = np.where(msk, np.abs(V1 - V2), 0.0)
+            D = np.where(np.isnan(D), np.inf, D)
+            bad = list(zip(*np.nonzero(D > 2 * HAT_TOL)))
+            if bad:
+                j, i = bad[0]
+                out.bad("%s/pairwise/%s-vs-%s/%s" % (sub, names[x], names[y], _hat_cause(stripes, boundary, hats, pts, bad)),
+                        "hat centre=%s support=[%s,%s] at x=%s: %r vs %r" % (hats[i][0], hats[i][1], hats[i][2],
+                                                                             pts[j].tolist(), V1[j, i], V2[j, i]))
+    npeak = int(np.sum(np.any(pts[:, None, :] == centres[None], axis=2) & insup))
+    nend = on_grid_line(stripes, pts.tolist())
+    nonuni = any(len(set(np.diff(s).tolist())) > 1 for s in stripes)
+    aniso = case["kind"] == "uniform" and d >= 2 and len(set(case["levels"])) > 1
+    out.nontrivial = (nonuni or aniso) and nend >= 1
+    out.cls("d=%d" % d, "kind=" + case["kind"], "boundary" if boundary else "no-boundary")
+    if nend:
+        out.cls("point-on-grid-line")
+    if np.any((pts == 0.0) | (pts == 1.0)):
+        out.cls("point-on-domain-boundary")
+    info["max_hats"] = K
+    info["max_points"] = M
+    out.info = info
+    return out
+
+
+def hats_strategy(tier):
+    @st.composite
+    def s(draw):
+        d = draw(st.integers(1, 3))
+        kind = draw(st.sampled_from(["uniform", "tree"]))
+        case = dict(d=d, kind=kind, boundary=False)
+        if kind == "uniform":
+            lv = [draw(st.integers(1, 4 if d < 3 else 3)) for _ in range(d)]
+            case["levels"] = lv
+            stripes = uniform_stripes(lv)
+        else:
+            case["boundary"] = draw(st.sampled_from([False, False, False, True]))
+            trees = [dict(lmin=draw(st.integers(1, 2)), splits=[draw(st.integers(0, 63)) for _ in range(draw(st.integers(0, 5)))])
+                     for _ in range(d)]
+            case["trees"] = trees
+            stripes = [tree_stripe(t["splits"], t["lmin"])[0] for t in trees]
+        case["points"] = draw(data_strategy(stripes, 8 if tier == "quick" else 20))
         return case
     return s()
 
@@ -523,13 +1103,31 @@ def selftest():
     o = Outcome()
     check_surpluses(o, "t", ref_surpluses(G, 0.0, bref, w, False, False)[0], G, 0.1, bref, w, False, False, "selftest")
     assert any("not-proportional" in s for s, _ in o.violations), o.violations
+    # tree stripes: bisecting interval 1 of [0,.5,1] gives [0,.5,.75,1] with levels [0,1,2,0]
+    assert tree_stripe([1], 1) == ([0.0, 0.5, 0.75, 1.0], [0, 1, 2, 0])
+    assert tree_stripe([], 2) == ([0.0, 0.25, 0.5, 0.75, 1.0], [0, 2, 1, 2, 0])
+    # hat comparison must reject a corrupted evaluation: reference matrix vs. a version that is 2 at the peak
+    A = ref_hatmatrix(uniform_stripes([2]), False, [[0.5], [0.3]])
+    assert np.allclose(A, [[0, 1, 0], [0.8, 0.2, 0]])
     # a case through the library must be clean
     o = run_uniform(dict(d=2, mode="direct", lam=0.1, lump=False, rng=1, levels=[1, 3],
                          data=[[0.5, 0.25], [0.3, 0.7], [0.0, 1.0]], bulk=0, labels=None))
+    assert not o.violations and o.nontrivial, (o.violations, o.nontrivial)
+    o = run_dimwise(dict(d=2, boundary=False, numeric=False, reuse=False, lam=0.001, lump=False, rng=3,
+                         grids=[[dict(lmin=1, splits=[1]), dict(lmin=2, splits=[0, 3])]],
+                         data=[[0.75, 0.125], [0.5, 0.5], [1.0, 0.3]], bulk=5, labels=[1, -1, 1]))
+    assert not o.violations and o.nontrivial, (o.violations, o.nontrivial)
+    o = run_hats(dict(d=2, kind="uniform", boundary=False, levels=[1, 2], points=[[0.5, 0.25], [0.3, 0.5], [0.0, 1.0]]))
     assert not o.violations and o.nontrivial, (o.violations, o.nontrivial)
 
 
 SUBS = [
     Sub("uniform", uniform_strategy, run_uniform, dict(quick=900, thorough=12000),
-        budget_s=dict(quick=45, thorough=500)),
+        budget_s=dict(quick=40, thorough=400)),
+    Sub("dimwise", dimwise_strategy, run_dimwise, dict(quick=700, thorough=9000),
+        budget_s=dict(quick=45, thorough=450)),
+    Sub("sasd", sasd_strategy, run_sasd, dict(quick=250, thorough=3000),
+        budget_s=dict(quick=40, thorough=400)),
+    Sub("hats", hats_strategy, run_hats, dict(quick=800, thorough=10000),
+        budget_s=dict(quick=30, thorough=300)),
 ]
